@@ -4,6 +4,8 @@
 package index
 
 import (
+	"io"
+
 	"github.com/RoaringBitmap/roaring"
 	segment "github.com/blugelabs/bluge_segment_api"
 )
@@ -24,6 +26,7 @@ type VerifSeg struct {
 	Segment   segment.Segment
 	Deleted   *roaring.Bitmap
 	Persisted bool
+	Closer    io.Closer // the directory's closer of a loaded segment, nil otherwise
 }
 
 func (i *Snapshot) VerifEpoch() uint64 { return i.epoch }
@@ -37,7 +40,12 @@ func (i *Snapshot) VerifSegs() []VerifSeg {
 		if s.deleted != nil {
 			del = s.deleted.Clone()
 		}
-		rv = append(rv, VerifSeg{ID: s.id, Segment: s.segment.Segment, Deleted: del, Persisted: s.segment.Persisted()})
+		var closer io.Closer
+		if rc, ok := s.segment.refCounter.(*closeOnLastRefCounter); ok {
+			closer = rc.closer
+		}
+		rv = append(rv, VerifSeg{ID: s.id, Segment: s.segment.Segment, Deleted: del,
+			Persisted: s.segment.Persisted(), Closer: closer})
 	}
 	return rv
 }
